@@ -37,10 +37,15 @@ impl Vm {
     }
 
     let error_message = val!(self.manage_str(message));
-    // Make sure we have enough space for the error message
-    // As this isn't accounted for during compilation
+    // Make sure we have enough space for the error class and message
+    // As this isn't accounted for during compilation. The class takes
+    // the callee slot, otherwise the new instance is written over
+    // whatever value happens to be below the message
     let mut fiber = self.fiber;
-    fiber.ensure_stack(self, 1);
+    self.push_root(error_message);
+    fiber.ensure_stack(self, 2);
+    self.pop_roots(1);
+    fiber.push(val!(error));
     fiber.push(error_message);
 
     let mode = ExecutionMode::CallingNativeCode(self.fiber.frames().len());
